@@ -23,7 +23,7 @@ import numpy as np
 
 from checks import c01
 from ptverif import progspace, runprog, tlc
-from ptverif.common import NCPU, MachineryError, Run, seed
+from ptverif.common import NCPU, MachineryError, Run, robust_map, seed
 
 PROP = "C07"
 
@@ -145,11 +145,11 @@ def programs(tier: str) -> list[dict]:
 def main(tier: str, only: list[dict] | None = None) -> int:
     run = Run(PROP, tier, "exploration")
     progs = only if only is not None else programs(tier)
-    n = NCPU * 4
-    with mp.Pool(NCPU) as pool:
-        results = [r for chunk in pool.map(_run_many,
-                                           [progs[i::n] for i in range(n) if progs[i::n]])
-                   for r in chunk]
+    results = robust_map(_run_many, progs, crashed=lambda p, why: {
+        "id": p["id"], "status": "ok", "kernels": [], "variants": 1, "tagged_nodes": 0,
+        "compared": 0,
+        "problems": [{"clause": "execution_crashed", "exc": "", "what": why, "variant": "?",
+                      "spec": None}]})
     by_id = {p["id"]: p for p in progs}
     status: dict[str, int] = {}
     kernels: list[dict] = []
